@@ -3,7 +3,9 @@
 //! `vm_memory::verif::set_xen_ioctl`).  The "device" is a memfd: the library mmaps the device fd at
 //! the offset (`index`) the map ioctl hands out; the emulation hands out index = grant reference *
 //! page size, so guest page g lives at byte g * page of the memfd and every byte the library writes
-//! can be read back with pread (independent of the accessors), and logs every map / unmap request.
+//! can be read back with pread (independent of the accessors), and logs every map / unmap request - a map request
+//! with its FULL list of (domid, reference): page i of a window has to be the page named by reference i.  Regions
+//! are built with a non-zero domid (`case_domid`).
 //! Opcodes 15-18 are the stream entry points with a DESCRIPTOR as the other end (read_volatile_from /
 //! read_exact_volatile_from out of a memfd holding known bytes, write_volatile_to / write_all_volatile_to into an
 //! empty memfd): the transfer is a read(2)/write(2) on the guarded pointer, so the window must stay mapped across
@@ -29,6 +31,7 @@ use vm_memory::{
 pub const SUITES: &[Suite] = &[
     Suite { name: "C17xen", gen, exec },
     Suite { name: "C17xenfind", gen: gen_find, exec },
+    Suite { name: "C17xenchain", gen: gen_chain, exec: exec_chain },
 ];
 
 // ------------------------------------------------------------------ emulated device
@@ -39,22 +42,33 @@ pub enum DevEv {
     Foreign { count: u64, ok: bool },
 }
 pub struct Dev {
+    /// the full (domid, reference) list of every ACCEPTED map request, in the order of the Map events of `log`
+    pub refs: Vec<Vec<(u32, u32)>>,
     pub log: Vec<DevEv>,
     pub live: Vec<(u64, u64)>,
     pub fail: bool,
     pub page: u64,
 }
-pub static DEV: Mutex<Dev> = Mutex::new(Dev { log: Vec::new(), live: Vec::new(), fail: false, page: 4096 });
+pub static DEV: Mutex<Dev> = Mutex::new(Dev { refs: Vec::new(), log: Vec::new(), live: Vec::new(), fail: false, page: 4096 });
 
 pub fn dev_reset(fail: bool) {
     let mut d = DEV.lock().unwrap();
     d.log.clear();
+    d.refs.clear();
     d.live.clear();
     d.fail = fail;
     d.page = unsafe { libc::sysconf(libc::_SC_PAGESIZE) } as u64;
 }
 pub fn dev_take() -> Vec<DevEv> {
-    std::mem::take(&mut DEV.lock().unwrap().log)
+    let mut d = DEV.lock().unwrap();
+    d.refs.clear();
+    std::mem::take(&mut d.log)
+}
+/// like dev_take, with the reference list of every Map event
+pub fn dev_take_named() -> (Vec<DevEv>, Vec<Vec<(u32, u32)>>) {
+    let mut d = DEV.lock().unwrap();
+    let r = std::mem::take(&mut d.refs);
+    (std::mem::take(&mut d.log), r)
 }
 pub fn dev_live() -> u64 {
     DEV.lock().unwrap().live.len() as u64
@@ -79,6 +93,22 @@ pub fn dev_install() {
                         return -1;
                     }
                     let gref = std::ptr::read_unaligned(arg.add(20) as *const u32) as u64;
+                    // the whole request: refs[i] = { domid u32 @16+8i, reference u32 @20+8i }
+                    let refs: Vec<(u32, u32)> = (0..count as usize)
+                        .map(|i| {
+                            (
+                                std::ptr::read_unaligned(arg.add(16 + 8 * i) as *const u32),
+                                std::ptr::read_unaligned(arg.add(20 + 8 * i) as *const u32),
+                            )
+                        })
+                        .collect();
+                    // The memfd device can only expose CONSECUTIVE guest pages at one index (page i of the mapping is
+                    // file page index/page + i).  A request whose page i is not named by reference first + i (or that
+                    // mixes domains) cannot be honoured by it: refused, like a gntdev that cannot map the grants.
+                    if refs.iter().enumerate().any(|(i, r)| r.0 != refs[0].0 || r.1 as u64 != gref + i as u64) {
+                        return -1;
+                    }
+                    d.refs.push(refs);
                     let index = gref * d.page;
                     std::ptr::write_unaligned(arg.add(8) as *mut u64, index);
                     d.log.push(DevEv::Map { gref, count, index });
@@ -484,11 +514,27 @@ fn run_op(cx: &mut Ctx, op: &[u128]) -> Option<bool> {
     }
 }
 
-fn ev_toks(evs: &[DevEv]) -> Vec<u128> {
+/// the domid the regions of a case are built with (coq/Spec/C17.v case_domid)
+fn case_domid(gbase: u64, page: u64) -> u32 {
+    ((gbase / page) % 5 + 1) as u32
+}
+
+fn ev_toks(evs: &[DevEv], refs: &[Vec<(u32, u32)>]) -> Vec<u128> {
     let mut v = Vec::new();
+    let mut k = 0;
     for e in evs {
         match *e {
-            DevEv::Map { gref, count, index } => v.extend([1, gref as u128, count as u128, index as u128]),
+            DevEv::Map { gref, count, index } => {
+                v.extend([1, gref as u128, count as u128, index as u128]);
+                // 3 n d0 r0 d1 r1 ...: the references the request named
+                if let Some(l) = refs.get(k) {
+                    v.extend([3, l.len() as u128]);
+                    for r in l {
+                        v.extend([r.0 as u128, r.1 as u128]);
+                    }
+                }
+                k += 1;
+            }
             DevEv::Unmap { index, count } => v.extend([2, index as u128, count as u128]),
             DevEv::Foreign { .. } => {}
         }
@@ -496,7 +542,8 @@ fn ev_toks(evs: &[DevEv]) -> Vec<u128> {
     v
 }
 
-fn child(case: &[Tok], out: &mut File) {
+/// builds the region of the case (prints the B line); None = the library refused to build it
+fn setup(case: &[Tok], out: &mut File) -> Option<Ctx> {
     let (rkind, size, gbase, page) = (case[1].u(), case[2].u() as usize, case[3].u(), case[4].u());
     assert!(page == unsafe { libc::sysconf(libc::_SC_PAGESIZE) } as u64);
     assert!(rkind < 4 && size <= (1 << 22) && gbase < (1 << 40) && gbase % page == 0);
@@ -513,13 +560,13 @@ fn child(case: &[Tok], out: &mut File) {
     }
     let range = match rkind {
         0 => MmapRange::new_unix(size, None, GuestAddress(gbase)),
-        k => MmapRange::new(size, Some(file_offset_of(fd, 0)), GuestAddress(gbase), [0, 1, 2, 0xA][k as usize], 0),
+        k => MmapRange::new(size, Some(file_offset_of(fd, 0)), GuestAddress(gbase), [0, 1, 2, 0xA][k as usize], case_domid(gbase, page)),
     };
     let region = match MmapRegion::<()>::from_range(range).ok().and_then(|r| GuestRegionMmap::new(r, GuestAddress(gbase)).ok()) {
         Some(r) => r,
         None => {
             writeln!(out, "B 0").unwrap();
-            return;
+            return None;
         }
     };
     writeln!(out, "B 1").unwrap();
@@ -529,29 +576,45 @@ fn child(case: &[Tok], out: &mut File) {
         }
     }
     dev_take();
-    let mut cx = Ctx { region, rkind, fd, data_base, size, shadow, rng, efault: false };
-    for t in &case[5..] {
-        let op = t.l().to_vec();
-        assert!(op.len() == 5);
-        writeln!(out, "S").unwrap(); // an operation starts
-        cx.efault = false;
-        let r = util::catch(|| run_op(&mut cx, &op));
-        let evs = dev_take();
-        let whole = cx.backing() == cx.shadow;
-        let (rc, data) = match r {
-            None => (2u128, whole),
-            Some(None) if cx.efault => (4, whole),
-            Some(None) => (0, whole),
-            Some(Some(d)) => (1, d && whole),
-        };
-        let mut v = vec![rc, data as u128, dev_live() as u128];
-        v.extend(ev_toks(&evs));
-        writeln!(out, "O {}", crate::tok::show(&Tok::L(v))).unwrap();
-    }
+    Some(Ctx { region, rkind, fd, data_base, size, shadow, rng, efault: false })
+}
+
+/// one operation: S line, the operation (panics caught), O line
+fn observe(cx: &mut Ctx, out: &mut File, f: impl FnOnce(&mut Ctx) -> Option<bool>) {
+    writeln!(out, "S").unwrap(); // an operation starts
+    cx.efault = false;
+    let r = util::catch(|| f(cx));
+    let (evs, refs) = dev_take_named();
+    let whole = cx.backing() == cx.shadow;
+    let (rc, data) = match r {
+        None => (2u128, whole),
+        Some(None) if cx.efault => (4, whole),
+        Some(None) => (0, whole),
+        Some(Some(d)) => (1, d && whole),
+    };
+    let mut v = vec![rc, data as u128, dev_live() as u128];
+    v.extend(ev_toks(&evs, &refs));
+    writeln!(out, "O {}", crate::tok::show(&Tok::L(v))).unwrap();
+}
+
+fn finish(cx: Ctx, out: &mut File) {
     let alive = dev_mapped();
     let Ctx { region, .. } = cx;
     drop(region);
     writeln!(out, "E {:x} {:x} {:x}", alive, dev_mapped(), dev_live()).unwrap();
+}
+
+fn child(case: &[Tok], out: &mut File) {
+    let mut cx = match setup(case, out) {
+        Some(c) => c,
+        None => return,
+    };
+    for t in &case[5..] {
+        let op = t.l().to_vec();
+        assert!(op.len() == 5);
+        observe(&mut cx, out, |cx| run_op(cx, &op));
+    }
+    finish(cx, out);
 }
 
 fn exec(case: &[Tok]) -> Vec<Tok> {
@@ -573,6 +636,11 @@ fn exec(case: &[Tok]) -> Vec<Tok> {
             assert!((1..=16).contains(&l[3]));
         }
     }
+    fork_run(case, case.len() - 5, child)
+}
+
+/// runs `childf` on the case in a forked child and assembles the observation from what it printed
+fn fork_run(case: &[Tok], nops: usize, childf: fn(&[Tok], &mut File)) -> Vec<Tok> {
     let mut fds = [0i32; 2];
     assert!(unsafe { libc::pipe(fds.as_mut_ptr()) } == 0);
     let pid = unsafe { libc::fork() };
@@ -580,7 +648,7 @@ fn exec(case: &[Tok]) -> Vec<Tok> {
     if pid == 0 {
         unsafe { libc::close(fds[0]) };
         let mut out = unsafe { File::from_raw_fd(fds[1]) };
-        let ok = util::catch(|| child(case, &mut out)).is_some();
+        let ok = util::catch(|| childf(case, &mut out)).is_some();
         unsafe { libc::_exit(if ok { 0 } else { 7 }) };
     }
     unsafe { libc::close(fds[1]) };
@@ -592,7 +660,6 @@ fn exec(case: &[Tok]) -> Vec<Tok> {
     }
     let mut status = 0i32;
     unsafe { libc::waitpid(pid, &mut status, 0) };
-    let nops = case.len() - 5;
     let mut built = 0u64;
     let mut ops: Vec<Tok> = Vec::new();
     let mut started = 0usize;
@@ -801,4 +868,554 @@ fn gen_find(_rng: &mut Rng, _tier: Tier, emit: &mut dyn FnMut(Vec<Tok>)) {
     case(vec![op(0, 8, 8, 0, 0), op(9, 8, 4, 0, 0)]);
     case(vec![op(9, 0, 8, 0, 0)]);
     case(vec![op(10, 16, 32, 0, 0)]);
+}
+
+// ------------------------------------------------------------------ suite C17xenchain: derivation chains
+// case:  mode rkind size gbase page [root] [step]* [final]     (each list: code a b c - see coq/Spec/C17.v)
+// obs:   the observation of a one-operation history
+// The accessor of the final access is reached by a RANDOM chain over every accessor-producing method of
+// volatile_memory.rs (subslice, offset, both halves of split_at, get_slice, get_ref, get_array_ref, as_volatile_slice,
+// From<VolatileSlice> for VolatileArrayRef<u8>, Clone, Copy, to_slice, ref_at): each of them builds a new accessor
+// and has to hand the region's mapping handle on; on an on-demand region an accessor without it dereferences the
+// null-based address (the child dies: r = 3).
+use vm_memory::{VolatileArrayRef, VolatileRef};
+
+type VS<'a> = VolatileSlice<'a, ()>;
+trait DRef<'a> {
+    fn to_slice(&self) -> VS<'a>;
+    fn dup(&self, copy: bool) -> Box<dyn DRef<'a> + 'a>;
+    fn load(&self) -> Vec<u8>;
+    fn store(&self, b: &[u8]);
+    fn guard_read(&self) -> Vec<u8>;
+    fn guard_write(&self, b: &[u8]) -> usize;
+}
+trait DArr<'a> {
+    fn to_slice(&self) -> VS<'a>;
+    fn dup(&self, copy: bool) -> Box<dyn DArr<'a> + 'a>;
+    fn ref_at(&self, i: usize) -> Box<dyn DRef<'a> + 'a>;
+    fn load(&self, i: usize) -> Vec<u8>;
+    fn store(&self, i: usize, b: &[u8]);
+    fn guard_read(&self) -> Vec<u8>;
+    fn guard_write(&self, b: &[u8]) -> usize;
+}
+fn g_read(p: *const u8, len: usize) -> Vec<u8> {
+    (0..len).map(|i| unsafe { std::ptr::read_volatile(p.add(i)) }).collect()
+}
+fn g_write(p: *mut u8, len: usize, b: &[u8]) -> usize {
+    for i in 0..len.min(b.len()) {
+        unsafe { std::ptr::write_volatile(p.add(i), b[i]) };
+    }
+    len
+}
+fn mk<T: ByteValued>(bytes: &[u8]) -> T {
+    let mut v: T = unsafe { std::mem::zeroed() };
+    v.as_mut_slice().copy_from_slice(bytes);
+    v
+}
+impl<'a, T: ByteValued + 'a> DRef<'a> for VolatileRef<'a, T, ()> {
+    fn to_slice(&self) -> VS<'a> {
+        VolatileRef::to_slice(self)
+    }
+    fn dup(&self, copy: bool) -> Box<dyn DRef<'a> + 'a> {
+        if copy {
+            let x = *self;
+            Box::new(x)
+        } else {
+            #[allow(clippy::clone_on_copy)]
+            Box::new(Clone::clone(self))
+        }
+    }
+    fn load(&self) -> Vec<u8> {
+        VolatileRef::load(self).as_slice().to_vec()
+    }
+    fn store(&self, b: &[u8]) {
+        VolatileRef::store(self, mk::<T>(b))
+    }
+    fn guard_read(&self) -> Vec<u8> {
+        let g = self.ptr_guard();
+        g_read(g.as_ptr(), g.len())
+    }
+    fn guard_write(&self, b: &[u8]) -> usize {
+        let g = self.ptr_guard_mut();
+        g_write(g.as_ptr(), g.len(), b)
+    }
+}
+impl<'a, T: ByteValued + 'a> DArr<'a> for VolatileArrayRef<'a, T, ()> {
+    fn to_slice(&self) -> VS<'a> {
+        VolatileArrayRef::to_slice(self)
+    }
+    fn dup(&self, copy: bool) -> Box<dyn DArr<'a> + 'a> {
+        if copy {
+            let x = *self;
+            Box::new(x)
+        } else {
+            #[allow(clippy::clone_on_copy)]
+            Box::new(Clone::clone(self))
+        }
+    }
+    fn ref_at(&self, i: usize) -> Box<dyn DRef<'a> + 'a> {
+        Box::new(VolatileArrayRef::ref_at(self, i))
+    }
+    fn load(&self, i: usize) -> Vec<u8> {
+        VolatileArrayRef::load(self, i).as_slice().to_vec()
+    }
+    fn store(&self, i: usize, b: &[u8]) {
+        VolatileArrayRef::store(self, i, mk::<T>(b))
+    }
+    fn guard_read(&self) -> Vec<u8> {
+        let g = self.ptr_guard();
+        g_read(g.as_ptr(), g.len())
+    }
+    fn guard_write(&self, b: &[u8]) -> usize {
+        let g = self.ptr_guard_mut();
+        g_write(g.as_ptr(), g.len(), b)
+    }
+}
+
+enum Acc<'a> {
+    S(VS<'a>),
+    R(Box<dyn DRef<'a> + 'a>),
+    A(Box<dyn DArr<'a> + 'a>),
+}
+/// the bytes an accessor designates according to the documentation of the methods that produced it (the harness'
+/// own bookkeeping for the shadow copy): S(off, len) / R(off, t) / A(off, t, n)
+#[derive(Clone, Copy, PartialEq, Debug)]
+enum Geo {
+    S(usize, usize),
+    R(usize, usize),
+    A(usize, usize, usize),
+}
+
+macro_rules! with_k {
+    ($k:expr, $T:ident => $e:expr) => {
+        match $k {
+            1 => { type $T = [u8; 1]; $e }
+            2 => { type $T = [u8; 2]; $e }
+            3 => { type $T = [u8; 3]; $e }
+            4 => { type $T = [u8; 4]; $e }
+            5 => { type $T = [u8; 5]; $e }
+            6 => { type $T = [u8; 6]; $e }
+            7 => { type $T = [u8; 7]; $e }
+            8 => { type $T = [u8; 8]; $e }
+            9 => { type $T = [u8; 9]; $e }
+            10 => { type $T = [u8; 10]; $e }
+            11 => { type $T = [u8; 11]; $e }
+            12 => { type $T = [u8; 12]; $e }
+            13 => { type $T = [u8; 13]; $e }
+            14 => { type $T = [u8; 14]; $e }
+            15 => { type $T = [u8; 15]; $e }
+            16 => { type $T = [u8; 16]; $e }
+            _ => panic!("bad element size"),
+        }
+    };
+}
+// The trait methods of VolatileMemory tie the result to the borrow of `self`; the accessors they return point into
+// the region (and at its mapping handle), which outlives the whole chain: extend the lifetime.
+unsafe fn ext_s<'a>(s: VolatileSlice<'_, ()>) -> VS<'a> {
+    std::mem::transmute(s)
+}
+fn ref_of<'a, M: VolatileMemory<B = ()>>(m: &M, k: usize, off: usize) -> Option<Box<dyn DRef<'a> + 'a>> {
+    with_k!(k, T => {
+        let r = m.get_ref::<T>(off).ok()?;
+        let r: VolatileRef<'a, T, ()> = unsafe { std::mem::transmute(r) };
+        Some(Box::new(r))
+    })
+}
+fn arr_of<'a, M: VolatileMemory<B = ()>>(m: &M, k: usize, off: usize, n: usize) -> Option<Box<dyn DArr<'a> + 'a>> {
+    with_k!(k, T => {
+        let r = m.get_array_ref::<T>(off, n).ok()?;
+        let r: VolatileArrayRef<'a, T, ()> = unsafe { std::mem::transmute(r) };
+        Some(Box::new(r))
+    })
+}
+
+fn geo_root(size: usize, l: &[u128]) -> Option<Geo> {
+    let (a, b, c) = (l[1] as usize, l[2] as usize, l[3] as usize);
+    match l[0] {
+        0 | 1 => (a + b <= size).then_some(Geo::S(a, b)),
+        2 | 5 => Some(Geo::S(0, size)),
+        3 => (a + b <= size).then_some(Geo::R(a, b)),
+        4 => (a + c * b <= size).then_some(Geo::A(a, b, c)),
+        _ => None,
+    }
+}
+fn geo_step(g: Geo, l: &[u128]) -> Option<Geo> {
+    let (a, b, c) = (l[1] as usize, l[2] as usize, l[3] as usize);
+    match (g, l[0]) {
+        (Geo::S(off, len), 0 | 4) => (a + b <= len).then_some(Geo::S(off + a, b)),
+        (Geo::S(off, len), 1 | 3) => (a <= len).then(|| Geo::S(off + a, len - a)),
+        (Geo::S(off, len), 2) => (a <= len).then_some(Geo::S(off, a)),
+        (Geo::S(off, len), 5) => (a + b <= len).then_some(Geo::R(off + a, b)),
+        (Geo::S(off, len), 6) => (a + c * b <= len).then_some(Geo::A(off + a, b, c)),
+        (Geo::S(..), 7) => Some(g),
+        (Geo::S(off, len), 8) => Some(Geo::A(off, 1, len)),
+        (_, 9 | 10) => Some(g),
+        (Geo::R(off, t), 11) => Some(Geo::S(off, t)),
+        (Geo::A(off, t, n), 11) => Some(Geo::S(off, n * t)),
+        (Geo::A(off, t, n), 12) => (a < n).then_some(Geo::R(off + a * t, t)),
+        _ => None,
+    }
+}
+
+fn chain_root<'a>(region: &'a GuestRegionMmap<()>, l: &[u128]) -> Option<Acc<'a>> {
+    use vm_memory::GuestMemoryRegion;
+    let (a, b, c) = (l[1] as usize, l[2] as usize, l[3] as usize);
+    Some(match l[0] {
+        0 => Acc::S(VolatileMemory::get_slice(&**region, a, b).ok()?),
+        1 => Acc::S(GuestMemoryRegion::get_slice(region, MemoryRegionAddress(a as u64), b).ok()?),
+        2 => Acc::S(GuestMemoryRegion::as_volatile_slice(region).ok()?),
+        3 => Acc::R(ref_of(&**region, b, a)?),
+        4 => Acc::A(arr_of(&**region, b, a, c)?),
+        5 => Acc::S(unsafe { ext_s(VolatileMemory::as_volatile_slice(&**region)) }),
+        _ => panic!("bad root"),
+    })
+}
+fn chain_step<'a>(acc: Acc<'a>, l: &[u128]) -> Option<Acc<'a>> {
+    let (a, b, c) = (l[1] as usize, l[2] as usize, l[3] as usize);
+    Some(match (acc, l[0]) {
+        (Acc::S(s), 0) => Acc::S(s.subslice(a, b).ok()?),
+        (Acc::S(s), 1) => Acc::S(s.offset(a).ok()?),
+        (Acc::S(s), 2) => Acc::S(s.split_at(a).ok()?.0),
+        (Acc::S(s), 3) => Acc::S(s.split_at(a).ok()?.1),
+        (Acc::S(s), 4) => Acc::S(unsafe { ext_s(VolatileMemory::get_slice(&s, a, b).ok()?) }),
+        (Acc::S(s), 5) => Acc::R(ref_of(&s, b, a)?),
+        (Acc::S(s), 6) => Acc::A(arr_of(&s, b, a, c)?),
+        (Acc::S(s), 7) => Acc::S(unsafe { ext_s(VolatileMemory::as_volatile_slice(&s)) }),
+        (Acc::S(s), 8) => Acc::A(Box::new(VolatileArrayRef::<u8, ()>::from(s))),
+        (Acc::S(s), 9) => {
+            #[allow(clippy::clone_on_copy)]
+            let t = Clone::clone(&s);
+            Acc::S(t)
+        }
+        (Acc::S(s), 10) => {
+            let t = *&s;
+            Acc::S(t)
+        }
+        (Acc::R(r), 9) => Acc::R(r.dup(false)),
+        (Acc::R(r), 10) => Acc::R(r.dup(true)),
+        (Acc::A(x), 9) => Acc::A(x.dup(false)),
+        (Acc::A(x), 10) => Acc::A(x.dup(true)),
+        (Acc::R(r), 11) => Acc::S(r.to_slice()),
+        (Acc::A(x), 11) => Acc::S(x.to_slice()),
+        (Acc::A(x), 12) => Acc::R(x.ref_at(a)),
+        _ => return None,
+    })
+}
+
+fn run_chain(cx: &mut Ctx, toks: &[Tok]) -> Option<bool> {
+    let n = toks.len();
+    let region = &cx.region;
+    let mut acc = chain_root(region, toks[0].l())?;
+    let mut geo = geo_root(cx.size, toks[0].l());
+    for t in &toks[1..n - 1] {
+        acc = chain_step(acc, t.l())?;
+        geo = geo.and_then(|g| geo_step(g, t.l()));
+    }
+    let f = toks[n - 1].l();
+    let (code, a) = (f[0], f[1] as usize);
+    // what the access is expected to cover: (first byte, byte count)
+    let want = match (geo, code) {
+        (Some(Geo::S(o, l)), 0..=3) => Some((o, l)),
+        (Some(Geo::R(o, t)), 0..=3) => Some((o, t)),
+        (Some(Geo::A(o, t, k)), 0 | 1) => Some((o, k * t)),
+        (Some(Geo::A(o, t, k)), 4 | 5) if a < k => Some((o + a * t, t)),
+        _ => None,
+    };
+    let pat = cx.rng.bytes(want.map_or(64, |w| w.1));
+    let exp = |sh: &Vec<u8>| want.map(|(o, l)| sh[o..o + l].to_vec());
+    let before = exp(&cx.shadow);
+    // Some(bytes read) / written byte count
+    enum Got {
+        Read(Vec<u8>),
+        Wrote(usize),
+    }
+    let got = match (&acc, code) {
+        (Acc::S(s), 0) => {
+            let g = s.ptr_guard();
+            Got::Read(g_read(g.as_ptr(), g.len()))
+        }
+        (Acc::S(s), 1) => {
+            let g = s.ptr_guard_mut();
+            Got::Wrote(g_write(g.as_ptr(), g.len(), &pat))
+        }
+        (Acc::S(s), 2) => {
+            let mut buf = vec![0u8; s.len()];
+            let r = s.read(&mut buf, 0).ok()?;
+            buf.truncate(r);
+            Got::Read(buf)
+        }
+        (Acc::S(s), 3) => Got::Wrote(s.write(&pat[..pat.len().min(s.len())], 0).ok()?),
+        (Acc::R(r), 0) => Got::Read(r.guard_read()),
+        (Acc::R(r), 1) => Got::Wrote(r.guard_write(&pat)),
+        (Acc::R(r), 2) => Got::Read(r.load()),
+        (Acc::R(r), 3) => {
+            let t = match geo {
+                Some(Geo::R(_, t)) => t,
+                _ => return Some(false),
+            };
+            r.store(&pat[..t]);
+            Got::Wrote(t)
+        }
+        (Acc::A(x), 0) => Got::Read(x.guard_read()),
+        (Acc::A(x), 1) => Got::Wrote(x.guard_write(&pat)),
+        (Acc::A(x), 4) => Got::Read(x.load(a)),
+        (Acc::A(x), 5) => {
+            let t = match geo {
+                Some(Geo::A(_, t, _)) => t,
+                _ => return Some(false),
+            };
+            x.store(a, &pat[..t]);
+            Got::Wrote(t)
+        }
+        _ => return None,
+    };
+    // the library handed out an accessor the documentation does not promise: nothing to compare with
+    let (o, l) = match want {
+        Some(w) => w,
+        None => return Some(false),
+    };
+    Some(match got {
+        Got::Read(v) => Some(v) == before,
+        Got::Wrote(k) => {
+            if k == l {
+                cx.shadow[o..o + l].copy_from_slice(&pat[..l]);
+            }
+            k == l
+        }
+    })
+}
+
+fn child_chain(case: &[Tok], out: &mut File) {
+    let mut cx = match setup(case, out) {
+        Some(c) => c,
+        None => return,
+    };
+    observe(&mut cx, out, |cx| run_chain(cx, &case[5..]));
+    finish(cx, out);
+}
+
+fn exec_chain(case: &[Tok]) -> Vec<Tok> {
+    assert!(case.len() >= 7 && case.len() <= 5 + 40);
+    assert!(case[2].u() <= (1 << 22) && case[3].u() < (1 << 40));
+    let n = case.len();
+    for (i, t) in case[5..].iter().enumerate() {
+        let l = t.l();
+        assert!(l.len() == 4 && l[1] < (1 << 24) && l[2] < (1 << 24) && l[3] < (1 << 24));
+        let sized = if i == 0 { l[0] == 3 || l[0] == 4 } else { i < n - 6 && (l[0] == 5 || l[0] == 6) };
+        if sized {
+            assert!((1..=16).contains(&l[2]));
+        }
+        assert!(l[0] <= if i == 0 { 5 } else if i == n - 6 { 5 } else { 12 });
+    }
+    fork_run(case, 1, child_chain)
+}
+
+fn k4(code: u64, a: u64, b: u64, c: u64) -> Tok {
+    Tok::L(vec![code as u128, a as u128, b as u128, c as u128])
+}
+/// a random request on the accessor `g`, mostly one the documentation accepts
+fn rand_step(rng: &mut Rng, g: Geo) -> Tok {
+    let valid = rng.chance(9, 10);
+    match g {
+        Geo::S(_, len) => {
+            let len = len as u64;
+            let o = if valid { rng.below(len + 1).min(if rng.bool() { 24 } else { u64::MAX }) } else { rng.below(len + 3) };
+            let rest = len.saturating_sub(o);
+            let c = if valid { if rng.chance(1, 3) { rest } else { rng.below(rest + 1) } } else { rng.below(rest + 3) };
+            let t = rng.range(1, 16);
+            match rng.below(13) {
+                0 => k4(0, o, c, 0),
+                1 => k4(1, o, 0, 0),
+                2 | 3 => k4(2, if rng.bool() { len - rng.below(len.min(9) + 1) } else { o }, 0, 0),
+                4 => k4(3, o, 0, 0),
+                5 => k4(4, o, c, 0),
+                6 => k4(5, if rest >= t || !valid { o } else { 0 }, t.min(len.max(1)), 0),
+                7 => k4(6, o, t, if valid { rng.below(rest / t + 1) } else { rest / t + rng.below(2) }),
+                8 => k4(7, 0, 0, 0),
+                9 | 10 => k4(8, 0, 0, 0),
+                11 => k4(9, 0, 0, 0),
+                _ => k4(10, 0, 0, 0),
+            }
+        }
+        Geo::R(..) => match rng.below(4) {
+            0 => k4(9, 0, 0, 0),
+            1 => k4(10, 0, 0, 0),
+            _ => k4(11, 0, 0, 0),
+        },
+        Geo::A(_, _, n) => match rng.below(6) {
+            0 => k4(9, 0, 0, 0),
+            1 => k4(10, 0, 0, 0),
+            2 | 3 => k4(11, 0, 0, 0),
+            _ => k4(12, if valid && n > 0 { rng.below(n as u64) } else { n as u64 + rng.below(2) }, 0, 0),
+        },
+    }
+}
+fn rand_final(rng: &mut Rng, g: Geo) -> Tok {
+    match g {
+        Geo::S(..) | Geo::R(..) => k4(rng.below(4), 0, 0, 0),
+        Geo::A(_, _, n) => match rng.below(4) {
+            0 => k4(0, 0, 0, 0),
+            1 => k4(1, 0, 0, 0),
+            x => k4(2 + x, if n > 0 && rng.chance(15, 16) { rng.below(n as u64) } else { n as u64 }, 0, 0),
+        },
+    }
+}
+fn rand_root(rng: &mut Rng, size: u64, page: u64) -> Tok {
+    let off = match rng.below(5) {
+        0 => 0,
+        1 => rng.below(size + 1),
+        2 => (page * rng.range(1, size / page + 1)).saturating_sub(rng.range(1, 17)).min(size),
+        3 => page * rng.below(size / page + 1),
+        _ => rng.below(page.min(size + 1)),
+    };
+    let rest = size - off;
+    let t = rng.range(1, 16);
+    match rng.below(9) {
+        0 | 1 => k4(rng.below(2), off, if rng.bool() { rest } else { rng.below(rest + 1) }, 0),
+        2 | 3 => k4(2, 0, 0, 0),
+        4 => k4(5, 0, 0, 0),
+        5 => k4(3, if rest >= t { off } else { 0 }, t.min(size.max(1)), 0),
+        6 => k4(rng.below(2), off, rest + rng.below(2), 0),
+        _ => k4(4, off, t, if rng.chance(1, 10) { rest / t + 1 } else { rng.below(rest / t + 1) }),
+    }
+}
+
+fn gen_chain(rng: &mut Rng, tier: Tier, emit: &mut dyn FnMut(Vec<Tok>)) {
+    let mode = crate::build_mode();
+    let page = unsafe { libc::sysconf(libc::_SC_PAGESIZE) } as u64;
+    let mut case = |rkind: u64, size: u64, gbase: u64, chain: Vec<Tok>| {
+        let mut v = vec![n(mode), n(rkind), n(size), n(gbase), n(page)];
+        v.extend(chain);
+        emit(v)
+    };
+    // systematic: every method once (and every pair of slice-to-slice methods) between a root and an access that
+    // crosses a page boundary, on the on-demand and on the advance-mapped grant region
+    let size = 3 * page;
+    let gbase = 0x40 * page;
+    let (o, l) = (page - 40, 100u64); // the window [page-40, page+60) inside a root [page-64, page+192)
+    let roots = [k4(0, page - 64, 256, 0), k4(1, page - 64, 256, 0)];
+    let s2s = |o: u64, l: u64, len: u64| -> Vec<Vec<Tok>> {
+        // ways from a slice of `len` bytes to its part [o, o+l)
+        vec![
+            vec![k4(0, o, l, 0)],
+            vec![k4(4, o, l, 0)],
+            vec![k4(1, o, 0, 0), k4(2, l, 0, 0)],
+            vec![k4(2, o + l, 0, 0), k4(3, o, 0, 0)],
+            vec![k4(3, o, 0, 0), k4(0, 0, l, 0)],
+            vec![k4(2, o + l, 0, 0), k4(1, o, 0, 0)],
+            vec![k4(7, 0, 0, 0), k4(0, o, l, 0)],
+            vec![k4(8, 0, 0, 0), k4(11, 0, 0, 0), k4(0, o, l, 0)],
+            vec![k4(0, o, l, 0), k4(8, 0, 0, 0), k4(11, 0, 0, 0)],
+            vec![k4(9, 0, 0, 0), k4(0, o, l, 0), k4(10, 0, 0, 0)],
+            vec![k4(6, o, 10, l / 10), k4(11, 0, 0, 0)],
+            vec![k4(6, o, 10, l / 10), k4(9, 0, 0, 0), k4(10, 0, 0, 0), k4(11, 0, 0, 0)],
+            vec![k4(2, len, 0, 0), k4(0, o, l, 0)],
+        ]
+    };
+    for rkind in [3u64, 2, 1, 0] {
+        for root in &roots {
+            let ways = s2s(o - (page - 64), l, 256);
+            for w1 in &ways {
+                for fin in 0..4u64 {
+                    let mut ch = vec![root.clone()];
+                    ch.extend(w1.iter().cloned());
+                    ch.push(k4(fin, 0, 0, 0));
+                    case(rkind, size, gbase, ch);
+                }
+                if rkind >= 2 {
+                    // a second derivation inside the first: [10, 70) of the 100 bytes
+                    for w2 in &s2s(10, 60, 100) {
+                        let mut ch = vec![root.clone()];
+                        ch.extend(w1.iter().cloned());
+                        ch.extend(w2.iter().cloned());
+                        ch.push(k4(rng.below(4), 0, 0, 0));
+                        case(rkind, size, gbase, ch);
+                    }
+                }
+            }
+            // typed references and arrays out of a slice, out of an array, and back
+            for t in [1u64, 3, 8, 16] {
+                for fin in 0..4u64 {
+                    case(rkind, size, gbase, vec![root.clone(), k4(5, 64 - t / 2, t, 0), k4(fin, 0, 0, 0)]);
+                    case(rkind, size, gbase, vec![root.clone(), k4(5, 64 - t / 2, t, 0), k4(9, 0, 0, 0), k4(11, 0, 0, 0), k4(fin, 0, 0, 0)]);
+                    case(rkind, size, gbase, vec![root.clone(), k4(6, 64 - 2 * t, t, 5), k4(12, 2, 0, 0), k4(fin, 0, 0, 0)]);
+                    case(rkind, size, gbase, vec![root.clone(), k4(6, 64 - 2 * t, t, 5), k4(12, 1, 0, 0), k4(11, 0, 0, 0), k4(fin, 0, 0, 0)]);
+                }
+                for fin in [0u64, 1, 4, 5] {
+                    case(rkind, size, gbase, vec![root.clone(), k4(6, 64 - 2 * t, t, 5), k4(fin, 1, 0, 0)]);
+                    case(rkind, size, gbase, vec![root.clone(), k4(6, 64 - 2 * t, t, 5), k4(10, 0, 0, 0), k4(fin, 2, 0, 0)]);
+                    case(rkind, size, gbase, vec![k4(4, page - 2 * t, t, 5), k4(fin, 1, 0, 0)]);
+                    case(rkind, size, gbase, vec![k4(4, page - 2 * t, t, 5), k4(11, 0, 0, 0), k4(8, 0, 0, 0), k4(fin, 2 * t, 0, 0)]);
+                }
+                for fin in 0..4u64 {
+                    case(rkind, size, gbase, vec![k4(3, page - t / 2, t, 0), k4(fin, 0, 0, 0)]);
+                    case(rkind, size, gbase, vec![k4(3, page - t / 2, t, 0), k4(11, 0, 0, 0), k4(fin, 0, 0, 0)]);
+                    case(rkind, size, gbase, vec![k4(4, page - 2 * t, t, 5), k4(12, 1, 0, 0), k4(fin, 0, 0, 0)]);
+                }
+            }
+            // the converted byte array: every access form
+            for fin in [0u64, 1, 4, 5] {
+                case(rkind, size, gbase, vec![root.clone(), k4(8, 0, 0, 0), k4(fin, 70, 0, 0)]);
+                case(rkind, size, gbase, vec![root.clone(), k4(0, 24, 100, 0), k4(8, 0, 0, 0), k4(9, 0, 0, 0), k4(fin, 50, 0, 0)]);
+            }
+            for fin in 0..4u64 {
+                case(rkind, size, gbase, vec![root.clone(), k4(8, 0, 0, 0), k4(12, 70, 0, 0), k4(fin, 0, 0, 0)]);
+            }
+        }
+        // whole-region roots
+        for root in [k4(2, 0, 0, 0), k4(5, 0, 0, 0)] {
+            for fin in 0..4u64 {
+                case(rkind, size, gbase, vec![root.clone(), k4(fin, 0, 0, 0)]);
+                case(rkind, size, gbase, vec![root.clone(), k4(2, page + 7, 0, 0), k4(fin, 0, 0, 0)]);
+                case(rkind, size, gbase, vec![root.clone(), k4(3, 2 * page - 7, 0, 0), k4(fin, 0, 0, 0)]);
+            }
+        }
+        // refused / undefined requests
+        case(rkind, size, gbase, vec![k4(0, size - 8, 9, 0), k4(0, 0, 0, 0)]);
+        case(rkind, size, gbase, vec![k4(0, 8, 64, 0), k4(0, 60, 5, 0), k4(1, 0, 0, 0)]);
+        case(rkind, size, gbase, vec![k4(0, 8, 64, 0), k4(2, 65, 0, 0), k4(1, 0, 0, 0)]);
+        case(rkind, size, gbase, vec![k4(4, 8, 4, 4), k4(12, 4, 0, 0), k4(2, 0, 0, 0)]);
+        case(rkind, size, gbase, vec![k4(4, 8, 4, 4), k4(4, 4, 0, 0)]);
+        case(rkind, size, gbase, vec![k4(0, 8, 64, 0), k4(11, 0, 0, 0), k4(0, 0, 0, 0)]);
+        case(rkind, size, gbase, vec![k4(0, 8, 64, 0), k4(4, 0, 0, 0)]);
+        // empty accessors
+        case(rkind, size, gbase, vec![k4(0, page, 0, 0), k4(8, 0, 0, 0), k4(11, 0, 0, 0), k4(rkind % 4, 0, 0, 0)]);
+        case(rkind, size, gbase, vec![k4(0, 8, 64, 0), k4(2, 0, 0, 0), k4(1, 0, 0, 0)]);
+        case(rkind, size, gbase, vec![k4(0, 8, 64, 0), k4(3, 64, 0, 0), k4(3, 0, 0, 0)]);
+    }
+    // random chains
+    let nh = if tier == Tier::Quick { 2500 } else { 60_000 };
+    for _ in 0..nh {
+        let rkind = match rng.below(8) {
+            0 => 0,
+            1 => 1,
+            2 | 3 => 2,
+            _ => 3,
+        };
+        let size = match rng.below(4) {
+            0 => page * rng.range(1, 4),
+            1 => page * rng.range(1, 3) + rng.below(page),
+            2 => rng.range(1, page),
+            _ => 2 * page,
+        };
+        let gbase = page * rng.below(1 << 12);
+        let root = rand_root(rng, size, page);
+        let mut geo = geo_root(size as usize, root.l());
+        let mut ch = vec![root];
+        let depth = rng.below(9);
+        for _ in 0..depth {
+            let g = match geo {
+                Some(g) => g,
+                None => break,
+            };
+            let st = rand_step(rng, g);
+            geo = geo_step(g, st.l());
+            ch.push(st);
+        }
+        ch.push(match geo {
+            Some(g) => rand_final(rng, g),
+            None => k4(rng.below(4), 0, 0, 0),
+        });
+        case(rkind, size, gbase, ch);
+    }
 }
